@@ -19,6 +19,8 @@ func init() {
 				Quick: map[string]int{"k": 2}, Thorough: map[string]int{"k": 3},
 				Reach: []string{"pipeline completed"}, Functions: pipelineFns,
 				Known: []string{"C01-abs-interface-field-plus-fragment", "C01-abs-fragment-on-interface", "C01-abs-fragment-on-one-implementer"}},
+			{Name: "pipeline-shared-entities", Pkg: ".", Files: []string{"root/fed.go", "root/c01.go"}, Entry: "VerifPipelineReviews", Mode: "seq", Native: true,
+				Reach: []string{"pipeline completed"}, Functions: pipelineFns},
 			{Name: "pipeline-deep", Pkg: ".", Files: []string{"root/fed.go", "root/c01.go"}, Entry: "VerifPipelineDeep", Mode: "seq", Native: true,
 				Reach: []string{"pipeline completed"}, Functions: pipelineFns},
 		},
